@@ -85,7 +85,7 @@ func c13Units(tier string, seed int64) []Unit {
 	quick := tier != "thorough"
 	var units []Unit
 	junk := [][]byte{{0}, {1}, {0xff}, {0xff, 0xff, 0xff, 0xff, 0xff, 0xff, 0xff, 0xff}, {1, 2, 3, 4, 5, 6, 7, 8, 9}, make([]byte, 17)}
-	for _, p := range AllProgs() {
+	for _, p := range append(AllProgs(), FailingProgs()...) {
 		if !(p.Has("rej") || p.Has("machine") || p.Name == "Int64()" || p.Name == "Float64()" || p.Name == "Bool()" || p.Name == "Make[made]" || p.Name == "String()") {
 			continue
 		}
